@@ -25,7 +25,7 @@ func taskPositions(t *TaskSpec) []execPos {
 	if t.NVar > 0 {
 		vars = nil
 		for k := 0; k < t.NVar; k++ {
-			vars = append(vars, variationName(k))
+			vars = append(vars, t.VarName(k))
 		}
 	}
 	for _, v := range vars {
